@@ -646,6 +646,10 @@ func successPathsWithoutAction(p *Prog, fn *ssa.Function, ei int, acts func(b *s
 			case *ssa.Extract:
 				success = true
 			}
+			// `if err := check(..); err != nil { return err }`: the forwarded result is known not to be nil here
+			if success && testedNonNil(v, b) {
+				success = false
+			}
 			if !success {
 				return
 			}
@@ -1335,7 +1339,7 @@ func runR84(c *Ctx) {
 					if len(fail.Preds) != 1 {
 						continue
 					}
-					if ret, isRet := fail.Instrs[len(fail.Instrs)-1].(*ssa.Return); isRet && returnsNilError(ret) && !returnsSomeValue(ret, ei) {
+					if ret, isRet := fail.Instrs[len(fail.Instrs)-1].(*ssa.Return); isRet && returnsNilError(ret) && !returnsSomeValue(ret, ei) && !r131NilRejectedByCallers(p, fn, ret) {
 						c.bad(key+" failure return", p.instrPos(ret), fmt.Sprintf("when this %s fails the function returns at once with a nil error: a missing key / an unexpected type is reported as success", what))
 					} else if isRet {
 						c.okTrivial(key+" failure return", p.instrPos(ret), "the failure edge returns an error")
@@ -1381,6 +1385,15 @@ func runR84(c *Ctx) {
 							}
 							if st2, isSt := r2.(*ssa.Store); isSt && st2.Addr == ssa.Value(al) {
 								continue // another assignment of the variable
+							}
+							if phi, isPhi := r2.(*ssa.Phi); isPhi {
+								// the variable's address taken on one branch (`cell = &s`): the edge must come from the ok side
+								for i, e := range phi.Edges {
+									if e == ssa.Value(al) && !underOk(phi.Block().Preds[i]) {
+										bad = p.instrPos(r2)
+									}
+								}
+								continue
 							}
 							if !underOk(r2.Block()) {
 								bad = p.instrPos(r2)
